@@ -401,7 +401,9 @@ impl ErrorBounds for mode::HalfEven {
         half_ulp.repr.exponent -= 1;
         half_ulp.repr.significand = UBig::from_word((B + 1) / 2).into(); // ceil division
 
-        let incl = f.repr.significand.bit(0);
+        // a tie is rounded to the float whose significand of full precision is even: that is
+        // the stored (normalized) significand padded with `precision - digits` zero digits
+        let incl = !f.repr.significand.bit(0) || (B % 2 == 0 && f.repr.digits() < f.precision());
         (half_ulp.clone(), half_ulp, incl, incl)
     }
 }
